@@ -54,7 +54,7 @@ def generate(rng, n, tier):
             c.pop("ops")
             c.update(kind="order", cfg=cfg2, tail=tail, perms=perms)
             yield c
-        elif r < 0.85:
+        elif r < 0.8:
             c = G.gen_script(rng, nops=(2, 6), p_mid=0.2, solvers=("DE2",), allow_modes=rng.random() < 0.5)   # incl. clip=False: random re-draws while trial vectors are built
             if rng.random() < 0.25:       # a run in which trial vectors keep leaving the box and are re-drawn at random (clip=False)
                 nd = c["ndim"]; lo = [rng.choice([-1.0, 0.0]) for _ in range(nd)]; hi = [l + rng.choice([1.0, 2.0]) for l in lo]
@@ -69,6 +69,13 @@ def generate(rng, n, tier):
                         o["tight"], o["clip"] = rng.choice([None, True]), False
             c.update(kind="map", maps=["reversed", "shuffled", "threads"], mapseed=rng.randrange(10 ** 6))
             yield c
+        elif r < 0.87:
+            # one configuration reached along different API paths: SetConstraints + Step loop, Step(constraints=c) then Steps, Solve(constraints=c)
+            nd = rng.choice([2, 3])
+            lo = [rng.choice([-1.0, 0.0]) for _ in range(nd)]
+            yield dict(kind="paths", solver=rng.choice(["DE", "DE2", "NM", "POW"]), ndim=nd, npop=rng.choice([4, 6]), lo=lo, hi=[l + rng.choice([2.0, 3.0]) for l in lo],
+                       a=[G.grid(rng, -1, 2) + 0.2 for _ in range(nd)], q=rng.choice([0.5, 0.25]), nsteps=rng.choice([3, 4, 6]), ranges=rng.random() < 0.7,
+                       seed=rng.randrange(10 ** 6))
         elif r < 0.9:
             yield dict(kind="seed", seed=rng.choice([0, 0, 1, 7, 2 ** 31, 123456789]), ndim=rng.choice([1, 2]), npts=rng.choice([3, 4]),
                        how=rng.choice(["buckshot", "multinormal", "de"]), cost=G.gen_cost(rng, 2))
@@ -136,6 +143,8 @@ def _run(case):
         return dict(base=base, outs=outs)
     if k == "seed":
         return dict(a=_run_seeded(case), b=_run_seeded(case))
+    if k == "paths":
+        return _run_paths(case)
     return _run_ensemble(case)
 
 
@@ -194,6 +203,44 @@ class _Cost(object):
         return self._f(x)
 
 
+class _GridCons(object):
+    def __init__(self, q):
+        self.q = q
+    def __call__(self, x):
+        return [round(float(v) / self.q) * self.q for v in x]
+
+
+def _run_paths(case):
+    from mystic.termination import VTR
+    res = {}
+    for path in ("set", "stepkw", "solvekw"):
+        random.seed(case["seed"]); np.random.seed(case["seed"] % (2 ** 31))
+        s = L.build_solver(case["solver"], case["ndim"], case["npop"])
+        if case["solver"] in ("DE", "DE2"):
+            s.SetRandomInitialPoints(list(case["lo"]), list(case["hi"]))
+        else:
+            s.SetInitialPoints([(l + h) / 2 for l, h in zip(case["lo"], case["hi"])])
+        if case["ranges"]:
+            s.SetStrictRanges(list(case["lo"]), list(case["hi"]))
+        s.SetEvaluationLimits(generations=case["nsteps"] - 1)
+        s.SetTermination(VTR(-1.0))
+        s.SetObjective(_Cost(dict(kind="quad", a=case["a"])))
+        c = _GridCons(case["q"])
+        if path == "set":
+            s.SetConstraints(c)
+            for _ in range(case["nsteps"]):
+                s.Step()
+        elif path == "stepkw":
+            s.Step(constraints=c)
+            for _ in range(case["nsteps"] - 1):
+                s.Step()
+        else:
+            s.Solve(constraints=c)
+        res[path] = dict(pop=[[float(v) for v in p] for p in s.population], popE=[float(e) for e in s.popEnergy], bestX=[float(v) for v in s.bestSolution],
+                         bestE=float(s.bestEnergy), evals=int(s.evaluations), gens=int(s.generations))
+    return dict(paths=res)
+
+
 def _run_ensemble(case):
     from mystic.solvers import LatticeSolver, BuckshotSolver, NelderMeadSimplexSolver, PowellDirectionalSolver
     from mystic.termination import VTR
@@ -219,7 +266,8 @@ def _run_ensemble(case):
             s.SetMapper(make_map(mp, case["mapseed"]))
         return s
     def obs(s):
-        return dict(bestE=float(s.bestEnergy), bestX=[float(v) for v in s.bestSolution],
+        # (with an infinite best energy every member ties and wanders: the reported point then means nothing)
+        return dict(bestE=float(s.bestEnergy), bestX=([float(v) for v in s.bestSolution] if math.isfinite(float(s.bestEnergy)) else None),
                     allE=sorted(float(e) for e in s._all_bestEnergy), total=int(s._total_evals))
     res = {}
     for mp in (None, "reversed", "shuffled", "threads"):
@@ -279,6 +327,14 @@ def oracle(case, out):
                     diff = [q for q in view(a) if view(a)[q] != view(b)[q]]
                     f.append(SC.fail("schedule_irrelevant", "DifferentialEvolutionSolver2", "trajectory-depends-on-map-order:%s-vs-%s" % (r0["map"], r["map"]), dict(op=j, fields=diff)))
                     break
+    elif k == "paths":
+        ref = out["paths"]["set"]
+        for name, o in out["paths"].items():
+            if o != ref:
+                site = {"DE": "DifferentialEvolutionSolver", "DE2": "DifferentialEvolutionSolver2", "NM": "NelderMeadSimplexSolver", "POW": "PowellDirectionalSolver"}[case["solver"]]
+                f.append(SC.fail("config_order_irrelevant", site, "result-depends-on-how-constraints-were-given:" + name,
+                                 dict(fields=[q for q in ref if ref[q] != o[q]], set=ref["bestX"], got=o["bestX"])))
+                break
     elif k == "seed":
         if out["a"] != out["b"]:
             f.append(SC.fail("same_seed_same_run", "tools.random_seed", "same-seed-different-run:" + case["how"], dict(seed=case["seed"], a=out["a"], b=out["b"])))
@@ -341,6 +397,9 @@ def classify(case, out):
     elif case["kind"] == "seed":
         tags += ["seed:%s" % case["seed"], "how:" + case["how"]]
         n = 2
+    elif case["kind"] == "paths":
+        tags += ["solver:" + case["solver"], "ranges:%s" % case["ranges"]]
+        n = case["nsteps"]
     else:
         tags += ["ens:" + case["ens"], "nested:" + case["nested"]]
         n = 2
